@@ -519,3 +519,112 @@ Theorem auto_gn_one_step_linear_refuted_thm :
     (exists p2, lm_first_step pr p0 = Some p2 /\ p2 <> ps).
 Proof. exact gn_one_step_linear_refuted. Qed.
 Print Assumptions auto_gn_one_step_linear_refuted_thm.
+
+(* ======================================================================================== *)
+(* LM kernel, second part: the projector identity, descent, an exact multi-pass run         *)
+(* ======================================================================================== *)
+Require Import LV.Lin.QrModel LV.Lin.QrAlg LV.Lin.QrProofs LV.Lin.QrTheorems LV.Lin.QrQI LV.Lin.QrQIProofs.
+Require Import LV.Lin.LsSpec.
+Require Import LV.SelfCal.AutoKernelQrQ LV.SelfCal.AutoKernelProjector LV.SelfCal.AutoKernelProjQI.
+Require Import LV.SelfCal.AutoKernelDescent LV.SelfCal.AutoKernelRun.
+
+(* The projector identity, for every field with an involution satisfying the laws of the QR
+   theorems (qr_field_laws), every m >= n, every well-formed m x n matrix A with a trivial kernel on
+   which the Householder run of _vnacommon_qrd meets its sqrt / phase law instances: with Q the
+   matrix formed by the loop of _vnacommon_qr from the array the sweep left (qr_formq) and Q2^H y
+   accumulated as _vnacal_new_solve_auto does (q2h, q2_gram), for all vectors u, v and every z with
+   A^H A z = A^H v:   (Q2^H u)^H (Q2^H v) = u^H (v - A z). *)
+Theorem auto_q2_projector_thm : forall (K : CField) (isz : K -> bool), qr_field_laws K isz ->
+  forall (nrm phase : K -> K) m n (A : mat K) (u v z : nat -> K),
+  wf m n A -> n <= m -> run_laws K nrm phase isz m n A n -> ker_trivial K m n A ->
+  (forall j, j < n ->
+     sumf n (fun t => cmul (sumf m (fun i => cmul (cj (mget K A i j)) (mget K A i t))) (z t)) =
+     sumf m (fun i => cmul (cj (mget K A i j)) (v i))) ->
+  q2_gram K m n (qr_formq K m n (qr_a K (qrd K nrm phase isz m n A))) u v =
+  sumf m (fun i => cmul (cj (u i)) (csub (v i) (sumf n (fun t => cmul (mget K A i t) (z t))))).
+Proof.
+  intros K isz (L0 & L1 & La & Lm & Lc & L2 & Ls & Lz) nrm phase m n A u v z Hw Hnm HL Hk HN.
+  exact (q2_gram_projector K L0 L1 La Lm Lc L2 Ls nrm phase isz Lz m n A u v z Hw Hnm HL Hk HN).
+Qed.
+Print Assumptions auto_q2_projector_thm.
+
+(* The Q of the code is the product of the reflections: conj(Q(i,c)) = (H_(cnt-1) ... H_0 e_i)(c),
+   for every array and every number of diagonals (no law needed beyond the involution) *)
+Theorem auto_formq_spec_thm : forall (K : CField),
+  cj (c0 : K) = c0 -> cj (c1 : K) = c1 ->
+  (forall x y : K, cj (cadd x y) = cadd (cj x) (cj y)) ->
+  (forall x y : K, cj (cmul x y) = cmul (cj x) (cj y)) ->
+  (forall x : K, cj (cj x) = x) ->
+  forall m (a : mat K) cnt, cnt <= m -> forall i c, i < m -> c < m ->
+  cj (mget K (formq_upto K m a cnt) i c) = Tf K m a cnt (evec K i) c.
+Proof. exact formq_spec. Qed.
+Print Assumptions auto_formq_spec_thm.
+
+(* Connected to the executable model: over Q[i], for ANY functions standing for sqrt and the
+   unit-modulus factor whose run on a meets the law instances, the entries the model forms from
+   [project] (W^H (y - A z): J^H J, J^H k, k^H k of kernel_pass are of this form with W, y among
+   A'(p) x and b) are the products the code forms from its Q2. *)
+Theorem auto_project_is_code_q2_thm : forall (nrm phase : qi -> qi) m n o r (a y py w : qmat),
+  wf m n a -> n <= m -> run_laws QIF nrm phase qi_isz0 m n a n -> full_col_rank m n a ->
+  project m n o a y = Some py ->
+  forall i c, i < r -> c < o ->
+    mget QIF (mmul QIF r m o (mherm QIF m r w) py) i c =
+    q2_gram QIF m n (code_q nrm phase m n a) (fun e => mget QIF w e i) (fun e => mget QIF y e c).
+Proof. exact project_is_q2_projector. Qed.
+Print Assumptions auto_project_is_code_q2_thm.
+
+Theorem auto_project_is_code_q2_instance_thm :
+  wf 3 2 ex_qr_a /\ run_laws QIF qi_sqrt qi_phase qi_isz0 3 2 ex_qr_a 2 /\ full_col_rank 3 2 ex_qr_a /\
+  match project 3 2 1 ex_qr_a ex_y with
+  | Some py =>
+      qi_eqb (mget QIF (mmul QIF 1 3 1 (mherm QIF 3 1 ex_y) py) 0 0)
+             (q2_gram QIF 3 2 (code_q qi_sqrt qi_phase 3 2 ex_qr_a) (fun e => mget QIF ex_y e 0) (fun e => mget QIF ex_y e 0))
+      && negb (qi_eqb (mget QIF (mmul QIF 1 3 1 (mherm QIF 3 1 ex_y) py) 0 0) qi0)
+  | None => false
+  end = true.
+Proof. exact project_is_q2_projector_instance. Qed.
+Print Assumptions auto_project_is_code_q2_instance_thm.
+
+(* Descent: for every J (r x p_length) with Gram matrix jtj, every lambda >= 0 with J1 = jtj + lambda I
+   nonsingular: the step d is returned, d^H (J^H k) is a real number q >= 0 (= |J d|^2 + lambda |d|^2),
+   and q = 0 exactly when J^H k = 0: to first order |k|^2 does not increase along p - d and
+   decreases unless the point is stationary. *)
+Theorem auto_step_descent_thm : forall pl r (J jtj jtk : qmat) (lam : Qc),
+  wf pl 1 jtk ->
+  (forall a c, a < pl -> c < pl ->
+     mget QIF jtj a c = sumf r (fun k => cmul (cj (mget QIF J k a)) (mget QIF J k c))) ->
+  (0 <= lam)%Qc ->
+  q_kernel_trivial (j1_matrix pl jtj lam) pl ->
+  exists d q, kernel_step pl jtj jtk lam = Some d /\
+    sumf pl (fun i => cmul (cj (nth i d qi0 : QIF)) (mget QIF jtk i 0)) = qi_of_Qc q /\
+    (0 <= q)%Qc /\
+    (q = 0%Qc <-> forall i, i < pl -> mget QIF jtk i 0 = qi0).
+Proof. exact kernel_step_descent. Qed.
+Print Assumptions auto_step_descent_thm.
+
+Theorem auto_step_descent_satisfiable_thm :
+  let J : qmat := [[mkqi 1 8 0 1]; [mkqi 1 8 0 1]; [mkqi 1 8 0 1]] in
+  let jtj : qmat := [[mkqi 3 64 0 1]] in
+  let jtk : qmat := [[mkqi 1 4 0 1]] in
+  wf 1 1 jtk /\
+  (forall a c, a < 1 -> c < 1 ->
+     mget QIF jtj a c = sumf 3 (fun k => cmul (cj (mget QIF J k a)) (mget QIF J k c))) /\
+  (0 <= Q2Qc (1 # 10))%Qc /\
+  q_kernel_trivial (j1_matrix 1 jtj (Q2Qc (1 # 10))) 1.
+Proof. exact kernel_step_descent_instance. Qed.
+Print Assumptions auto_step_descent_satisfiable_thm.
+
+(* The model iteration converges from wrong guesses (exact multi-pass runs, by computation): on the
+   one-port problem of AutoKernelRun.v (exact dyadic data for x* = (2, 1, 1), p* = 3, full rank),
+   p_tolerance = et_tolerance = 1/8, limit 30: from the guess 2 kernel_run returns Converged after
+   exactly 3 passes, each the best so far, with p and every error term within 1/100 of the truth;
+   from 5/2 after 2 passes. *)
+Theorem auto_kernel_run_converges_thm :
+  exact_data run_pr run_ps run_xs /\ full_col_rank 6 3 (a_matrix run_pr run_ps) /\
+  run_ok (zi 2 0) 3 = true /\ run_ok (qh 5 2) 2 = true /\
+  close (zi 2 0) (zi 3 0) (Q2Qc (1 # 100)) = false /\ close (qh 5 2) (zi 3 0) (Q2Qc (1 # 100)) = false.
+Proof.
+  exact (conj run_exact (conj run_full_rank (conj kernel_run_converges_from_2
+          (conj kernel_run_converges_from_5_2 run_guesses_are_wrong)))).
+Qed.
+Print Assumptions auto_kernel_run_converges_thm.
